@@ -337,9 +337,17 @@ pub fn lambda_body_needs_parens(body: &SpannedExpr) -> bool {
 
 /// A statement is continued by a following line that starts with a binary operator, so a
 /// statement whose text starts with a prefix minus would be read as a subtraction from
-/// the statement before it. Parenthesise it.
+/// the statement before it. The same holds for a statement that starts with an identifier
+/// named like a word operator that is not reserved (`via`, `into`, `where`) followed by a
+/// blank: `a` / `where into x` is read as `a where into` followed by a stray `x`.
+/// Parenthesise it.
 pub fn protect_statement_start(source: String) -> String {
-    if source.starts_with('-') {
+    let word_operator_start = ["via", "into", "where"].iter().any(|w| {
+        source
+            .strip_prefix(w)
+            .is_some_and(|rest| rest.starts_with(' ') || rest.starts_with('\t'))
+    });
+    if source.starts_with('-') || word_operator_start {
         format!("({})", source)
     } else {
         source
